@@ -170,7 +170,8 @@ func (ch *channel) SendAndClose(ctx async.Context, data []byte) status.Status {
 
 	// If opened, close, send data/close
 	if s.opened.Load() {
-		s.close()
+		// Close channel in defer, the close message may be sent with the channel context.
+		defer s.close()
 
 		// Decrement window
 		size := int32(len(data))
@@ -182,7 +183,7 @@ func (ch *channel) SendAndClose(ctx async.Context, data []byte) status.Status {
 
 	// Open/close channel
 	s.open()
-	s.close()
+	defer s.close()
 
 	// Decrement window
 	size := int32(len(data))
